@@ -497,10 +497,6 @@ Proof.
   inversion H. congruence.
 Qed.
 
-Lemma trace_app_inv : forall ops s pre t post,
-  trace s ops = pre ++ t :: post -> True.
-Proof. auto. Qed.
-
 Theorem release_needs_dwell : forall s ops i pre t post last now cfg ins l l',
   good_init s -> forallb op_ok ops = true ->
   trace s ops = pre ++ t :: post ->
